@@ -30,6 +30,18 @@ CHECKS = {
  "C05": dict(level="exploration", ref="5 C05", tech="exhaustive single-bit and structural mutation of valid signed entries through the real block pipeline, differential (group testing + bisection)",
    text="For RCD-1 and RCD-e keys, transfers and held conversions, RCD-e active and not yet active, 2.0.5 and bank-pooled ledgers: every single-bit flip of every external id and of the content (quick: all ext-id bits, the first and last 32 content bytes and every 4th byte between; thorough: every bit), every structural mutant and the entry written to the other chains are applied by the real DBlockSync in the block after the valid entry; the ledger must equal that of the chain without mutants, differing packs are bisected to single mutants. Salt-window edges are checked one chain each.",
    note="Trusts the signature primitives. The RCD-e recovery-byte malleability is an open known finding."),
+ "C03": dict(level="exploration", ref="5 C03", tech="bounded-exhaustive enumeration of all batches up to length 3 over a transaction alphabet through the real pipeline, compared with a sequential reference ledger",
+   text="An address with exactly 10 pUSD, 4 pEUR, 6 PEG (x1 and x1e8) signs every batch of length 1..2 (two era/scale combinations and thorough: 3) over an 11-letter alphabet (amounts at balance-1/balance/balance+1, two outputs, self, burn address, conversions both ways, PEG request, spends that only an earlier in-batch credit can fund); each runs through the real DBlockSync in 5 eras. Final balances of all addresses must equal the chain without the entry or the full sequential effect, and 'applied' is only admissible when the running balance never goes negative.",
+   note="Reference amounts from recorded rates; bank-era batches mixing a PEG request with another conversion are an open known finding."),
+ "C07": dict(level="exploration", ref="5 C07", tech="full product enumeration of Convert arguments at the integer edges against exact arithmetic, plus exhaustive graded/ungraded block patterns through the real pipeline",
+   text="(a) about 120,000 argument tuples of conversions.Convert (amounts and four rates at the int64/uint64 edges, before/at/after the averaging activation) against floor(in*src/dst) in big-integer arithmetic with the min/max rule, overflow => error, and the value-non-increase bound. (b) a conversion submitted in a graded or ungraded block followed by every pattern over {G(r1),G(r2),U}^3 (thorough ^4) for up to 6 asset pairs in 7 eras: executes in the first later graded block only, at that block's recorded rates (any admissible averaging window), balances move by exactly the recorded amount.",
+   note="Rates are read as recorded (C12 checks them); averaging-window ambiguity is C09's."),
+ "C13": dict(level="exploration", ref="5 C13", tech="exhaustive enumeration of all 62x61 asset pairs at every activation boundary through the real pipeline against a rule model",
+   text="One address that acquired all 62 assets through protocol events along a compressed mainnet timeline submits one conversion per ordered pair (3782 entries per block); the next graded block executes them just before / at / after the one-way-pFCT, 2.0, one-way-small-assets and averaging activations, and under zeroed-spot and unavailable-average patterns (15 era points, thorough 19). Per entry status and amount and the aggregate balances are compared with a model written from the property's list.",
+   note="PEG destinations in the bank eras are left to C16."),
+ "C16": dict(level="exploration", ref="5 C16", tech="bounded-exhaustive enumeration of PEG-request multisets and placements through the real pipeline against the proportional-share / refund bounds",
+   text="Every multiset of up to 3 (thorough 4) PEG requests over 7 sizes around the bank and two source assets, as separate entries / one batch / spread over an ungraded block, in the per-height era, the pooled era and across the fork between them (about 2,000 chains): bank bound, full or proportional yield with dust, refund formula and value bound, balance deltas and the bank table row.",
+   note="Rates as recorded; one requesting address."),
 }
 
 NOT_YET = {}
